@@ -386,6 +386,9 @@ def select(c: E, a: E, b: E) -> E:
         return a if c.val else b
     if a is b:
         return a
+    if is_bool(a.ty):
+        if b.is_const: return binop('and', c, a) if not b.val else binop('or', unop('not', c), a)
+        if a.is_const: return binop('or', c, b) if a.val else binop('and', unop('not', c), b)
     if is_int(a.ty) and c.op in ('lt', 'le', 'gt', 'ge') and len(c.args) == 2:
         # integer min / max idioms (exact on integers; floats keep the select because of NaN)
         x, y = c.args
